@@ -104,10 +104,10 @@ def inputClass (inp : Input) : String :=
   else if !noBelowLink inp then "below-link"
   else "odd"
 
-/-- the destination does not exist and all its proper ancestors are directories (what the doc comment of
-`extract` asks of the caller) -/
+/-- the destination does not exist, all its proper ancestors are directories (what the doc comment of
+`extract` asks of the caller) and its components are names a file system takes (`TargetReady.short`) -/
 def targetReady (jail : Fs) (dest : Path) : Bool :=
-  dest ≠ [] && (jail.get dest).isNone &&
+  dest ≠ [] && dest.all (fun c => decide (c.length ≤ nameMax)) && (jail.get dest).isNone &&
     (List.range dest.length).all (fun k => match jail.get (dest.take k) with | some (.dir _) => true | _ => false)
 
 def judge (dest : Path) (ready : Bool) (inp? : Option Input) (impl : String) : String :=
